@@ -857,3 +857,82 @@ def constructor_records(I, prop):
     finally:
         I.ctx = saved
     return recs
+
+
+# ------------------------------------------------------------------------------ run: one result list per sentence (decided on the ast of the DePyx text)
+def sentence_loop_records(prop):
+    """C11 at the level of parsing.pyx: the list `run` returns is filled by ONE loop over the sentences, and every path through the body of that loop either raises or
+    appends exactly one element to it (a list of scored trees or the failure placeholder) - so the result has one entry per sentence, in input order, whatever was
+    parsed before.  Decided by enumerating the paths of the loop body (if / continue / raise / return); loops nested in the body must not touch the list."""
+    import ast
+    from vc import depyx
+    src, _ = depyx.load()
+    tree = ast.parse(src)
+    run = [n for n in tree.body if isinstance(n, ast.FunctionDef) and n.name == 'run']
+    problems = []
+    name = f'{prop}/{REL}::run/one-result-per-sentence'
+
+    def rec(verdict, detail):
+        return [dict(name=name, kind='ast', verdict=verdict, backend='ast', ms=0, inputs=None, detail=detail, witness=dict(function=f'{REL}::run', sites=detail if isinstance(detail, list) else None))]
+    if not run:
+        raise CheckerError(f'function under contract not found: {REL}::run')
+    run = run[0]
+    rets = [n for n in ast.walk(run) if isinstance(n, ast.Return) and n.value is not None and not any(n in ast.walk(f) for f in ast.walk(run) if isinstance(f, ast.FunctionDef) and f is not run)]
+    names = {n.value.id for n in rets if isinstance(n.value, ast.Name)}
+    if len(rets) != 1 or len(names) != 1:
+        raise CheckerError('run does not return one named list: the sentence-loop obligation does not fit')
+    out = next(iter(names))
+
+    def appends(node):
+        return [c for c in ast.walk(node) if isinstance(c, ast.Call) and isinstance(c.func, ast.Attribute) and c.func.attr in ('append', 'extend', 'insert', 'pop', 'clear', 'remove')
+                and isinstance(c.func.value, ast.Name) and c.func.value.id == out]
+    loops = [n for n in run.body if isinstance(n, ast.For) and appends(n)]
+    others = [c for st in run.body if st not in loops and not isinstance(st, ast.FunctionDef) for c in appends(st)]
+    stores = [n for n in ast.walk(run) if isinstance(n, (ast.Assign, ast.AugAssign)) and any(isinstance(t, ast.Name) and t.id == out for t in (n.targets if isinstance(n, ast.Assign) else [n.target]))]
+    if len(loops) != 1 or others or len(stores) != 1:
+        return rec('failed', [f'the returned list `{out}` is filled outside one top-level loop of run ({len(loops)} loops touch it, {len(others)} other sites, {len(stores)} bindings)'])
+    loop = loops[0]
+
+    # paths through a statement list: each path is (number of appends, how it ends: 'next' | 'continue' | 'raise' | 'return' | 'break')
+    def paths(stmts):
+        acc = [(0, 'next')]
+        for st in stmts:
+            new = []
+            for cnt, end in acc:
+                if end != 'next':
+                    new.append((cnt, end))
+                    continue
+                for c2, e2 in one(st):
+                    new.append((cnt + c2, e2))
+            acc = new
+        return acc
+
+    def one(st):
+        if isinstance(st, ast.If):
+            return paths(st.body) + paths(st.orelse)
+        if isinstance(st, ast.Continue):
+            return [(0, 'continue')]
+        if isinstance(st, ast.Break):
+            return [(0, 'break')]
+        if isinstance(st, ast.Raise):
+            return [(0, 'raise')]
+        if isinstance(st, ast.Return):
+            return [(0, 'return')]
+        if isinstance(st, (ast.For, ast.While, ast.Try, ast.With)):
+            if appends(st):
+                problems.append(f'parsing.pyx (DePyx line {st.lineno}): a nested {type(st).__name__} statement touches `{out}`')
+            return [(0, 'next')]
+        k = len([c for c in appends(st) if c.func.attr == 'append'])
+        if len(appends(st)) != k:
+            problems.append(f'parsing.pyx (DePyx line {st.lineno}): `{out}` is changed by something other than append')
+        return [(k, 'next')]
+    for cnt, end in paths(loop.body):
+        if end in ('raise',):
+            continue
+        if end in ('break', 'return'):
+            problems.append(f'a path through the sentence loop leaves it early ({end}): later sentences get no result')
+        elif cnt != 1:
+            problems.append(f'a path through the sentence loop appends {cnt} elements to `{out}` (exactly one per sentence is required)')
+    if loop.orelse:
+        problems.append('for/else on the sentence loop')
+    return rec('discharged' if not problems else 'failed', sorted(set(problems)) or f'every path through the sentence loop of run appends exactly one element to `{out}` ({len(paths(loop.body))} paths)')
